@@ -138,7 +138,7 @@ def _work(unit):
                 h.run(gg, case)
 
             try:
-                slice_end = time.time() + opts.get("slice_s", 20.0)
+                slice_end = time.time() + opts.get("slice_s", 4.0 if not opts.get("prefix") else 15.0)
                 if opts.get("deadline"):
                     slice_end = min(slice_end, opts["deadline"])
                 failures, exhausted = g.explore(
